@@ -51,13 +51,23 @@ Qed.
 Lemma inclb_incl a b : Check.inclb a b = true -> incl a b.
 Proof. unfold Check.inclb. rewrite forallb_forall. intros H c Hc. apply cmem_In. apply H. exact Hc. Qed.
 
-Lemma ok_header_sound jobs h : ok_header jobs h = true -> HeaderSpec jobs h.
+Lemma ok_header_kind_sound k jobs h : ok_header_kind k jobs h = true ->
+  exists j0, In j0 jobs /\ (forall c, In c h -> c = CPareto \/ In c (header_of k j0)) /\ (forall c, In c (header_of k j0) -> In c h).
 Proof.
-  unfold ok_header, HeaderSpec. intros H. apply existsb_exists in H as [j0 [Hj0 H]].
+  unfold ok_header_kind. intros H. apply existsb_exists in H as [j0 [Hj0 H]].
   apply andb_true_iff in H as [H1 H2]. apply inclb_incl in H1, H2. exists j0. split; [exact Hj0|]. split.
   - intros c Hc. destruct (col_eqb c CPareto) eqn:E; [left; apply col_eqb_eq; exact E|right].
     apply H1. unfold no_pareto. apply filter_In. split; [exact Hc|]. rewrite E. reflexivity.
   - exact H2.
+Qed.
+
+Lemma ok_header_sound jobs h : ok_header jobs h = true -> HeaderSpec jobs h.
+Proof.
+  unfold ok_header, HeaderSpec. intros H. apply orb_true_iff in H as [H|H].
+  - destruct (ok_header_kind_sound _ _ _ H) as (j0 & A & B & C). exists j0, (kind_of jobs). repeat split; try assumption. left. reflexivity.
+  - apply andb_true_iff in H as [H H3]. apply andb_true_iff in H as [H1 H2]. apply Nat.leb_le in H2.
+    destruct (ok_header_kind_sound _ _ _ H3) as (j0 & A & B & C). exists j0, (Vec (length (objcols h))).
+    split; [exact A|]. split; [right; split; [exact H1|eexists; split; [reflexivity|exact H2]]|]. split; assumption.
 Qed.
 
 Lemma ok_pareto_sound h rows : ok_pareto h rows = true -> ParetoSpec h rows.
